@@ -59,6 +59,27 @@ where
         Vec::new()
     };
     let mut enc: Enc<M, S> = RangeEncoder::with_backend(prefix.clone());
+    if rng.chance(1, 3) {
+        // somebody looks at the sink before the new message starts; what is there must stay there
+        for _ in 0..rng.usize_in(1, 3) {
+            match rng.below(3) {
+                0 => {
+                    let _ = enc.get_compressed().len();
+                }
+                1 => {
+                    let _ = enc.decoder().maybe_exhausted();
+                }
+                _ => {
+                    let _ = (enc.num_words(), enc.num_bits(), enc.is_empty());
+                }
+            }
+        }
+        if enc.bulk()[..] != prefix[..] {
+            run.violation("prefix-changed", "C11/prefix-changed-by-peek", format!("W={} S={} a fresh encoder over the sink {:?} was inspected; the sink now holds {:?}", <M::W as Num>::NAME, S::NAME, words_u128(&prefix), words_u128(enc.bulk())));
+            return;
+        }
+        run.count("peeks_before_first_symbol", 1);
+    }
     let Some((msg, edges)) = encode_one::<M, S>(run, rng, &mut enc, n, 12) else { return };
     edges.publish(run);
     let (lower, range) = lower_range::<M, S>(&enc);
